@@ -59,6 +59,9 @@ def check_rect(case):
     R1, R2, r1, r2 = gr.region_pair(case, "rect", lambda a, b: confidence_region_is_covered(order, a, b, _slack_arr(s)))
     if case.get("first"):
         labels.append("objects-updated-after-a-comparison")
+    if case.get("same_object"):  # a region compared with itself, passed as one object
+        R2 = R1
+        labels.append("same-object-twice")
     got = bool(confidence_region_is_covered(order, R1, R2, _slack_arr(s)))
     lo = np.array(r2["lo"]) - np.array(r1["hi"])
     hi = np.array(r2["hi"]) - np.array(r1["lo"])
@@ -82,6 +85,9 @@ def check_ell(case):
     E1, E2, e1, e2 = gr.region_pair(case, "ell", lambda a, b: confidence_region_is_covered(order, a, b, _slack_arr(s)))
     if case.get("first"):
         labels.append("objects-updated-after-a-comparison")
+    if case.get("same_object"):
+        E2 = E1
+        labels.append("same-object-twice")
     got = bool(confidence_region_is_covered(order, E1, E2, _slack_arr(s)))
     nrm = np.linalg.norm(W, axis=1)
     Wn = W / nrm[:, None]
@@ -149,6 +155,18 @@ def st_ell_case(draw, small=False):
 
 
 @st.composite
+def st_self(draw, kind):
+    """A region against itself (one object passed twice); the slack, relative to the region's size, decides the answer."""
+    spec = draw(gen.st_cone(max_extra=3))
+    W = gen.cone_W(spec) if spec["kind"] in ("W", "diag") else np.asarray(gen.make_order(spec).ordering_cone.W)
+    K, m = W.shape
+    scale = draw(gen.st_logfloat(1e-3, 1e2))
+    r = draw(gr.st_rect(m, scale)) if kind == "rect" else draw(gr.st_ell(m, scale))
+    s = draw(st_slack(m if kind == "rect" else K, scale * draw(st.sampled_from([0.03, 0.3, 1.0, 3.0]))))
+    return {"cone": spec, "r1": r, "r2": r, "slack": s, "same_object": True}
+
+
+@st.composite
 def st_updated(draw, kind):
     small = kind == "ell" and draw(st.booleans())
     case = draw(st_rect_case()) if kind == "rect" else draw(st_ell_case(small=small))
@@ -168,6 +186,10 @@ COMPONENTS = [
               rule="ellipsoids extents 1e-4..1e2, condition <=1e3, radius 0.1..50; per-facet slack"),
     Component("ell_small_correlated", check_ell, strategy=lambda: st_ell_case(small=True), quick=200, thorough=5000,
               rule="extents 1e-5..1e-3 written as radius 10..50 x rotated covariance with entries <= 1e-8; margins 0.1..1 x extent"),
+    Component("rect_against_itself", check_rect, strategy=lambda: st_self("rect"), quick=200, thorough=5000,
+              rule="one region object passed as both arguments; slack 0 .. 3 x its size"),
+    Component("ell_against_itself", check_ell, strategy=lambda: st_self("ell"), quick=150, thorough=4000,
+              rule="as rect_against_itself for ellipsoids"),
     Component("rect_updated_objects", check_rect, strategy=lambda: st_updated("rect"), quick=300, thorough=8000,
               rule="region objects built for another pair, compared once, then moved to the case's pair through update()"),
     Component("ell_updated_objects", check_ell, strategy=lambda: st_updated("ell"), quick=250, thorough=6000,
